@@ -325,6 +325,20 @@ def c02_oracle(sc):
             elif not forced and b.get("ino", {}).get(ad) != a.get("ino", {}).get(ad):
                 bad.append((j, "object %s was replaced (inode %s -> %s) by an unforced %s" % (ad, b["ino"].get(ad), a["ino"].get(ad), it[0]),
                             "relink" if ad in taint[j] else None))
+        # the documented digest: a NEW path committed by track sits at <algo>/<hash of its bytes, CR and LF
+        # removed first when it is treated as text: text mode, or auto mode and no NUL among the first 8000 bytes>
+        if it[0] == "track" and not it[1].get("nc") and a["oc"] == "Ok" and not taint[j]:
+            tmode = it[1].get("t") or sc.cfg["tob"]
+            for p in it[2]:
+                e = b["ws"].get(p)
+                if p in b["recs"] or e is None or e[0] != "F" or e[2] in ("!", "?"):
+                    continue
+                c = bytes.fromhex(e[2])
+                text = tmode == "text" or (tmode == "auto" and b"\0" not in c[:8000])
+                want = "%s/%s/%s" % (sc.cfg["algo"], R.ref_hash(sc.cfg["algo"], R.strip_crlf(c) if text else c), R.ext_of(p))
+                if p in a["recs"] and want not in a["objs"]:
+                    bad.append((j, "the content of %s (%d bytes, %s) is not at the documented address %s after track" % (
+                        p, len(c), "text" if text else "binary", want), None))
         if it[0] in ("W", "T", "D", "U") and set(a["objs"]) != set(b["objs"]):
             bad.append((j, "a user action changed the set of cache objects", None))
         # deduplication: one object per (algorithm, extension, bytes)
